@@ -250,7 +250,7 @@ const walkSrc = `
         if (n[0] === "_" && n[1] === "_") continue;
         var d = gopd(o, n);
         var acc = ("get" in d) || ("set" in d);
-        emit(path + "\t" + n + "\t" + (acc ? "accessor" : typeof d.value) + "\t" + (acc ? "A" : (d.writable ? 1 : 0)) + (d.enumerable ? 1 : 0) + (d.configurable ? 1 : 0) + "\t" + (typeof d.value === "function" ? d.value.length : ""));
+        emit(path + "\t" + n + "\t" + (acc ? "accessor" : typeof d.value) + "\t" + (acc ? "A" : (d.writable ? 1 : 0)) + (d.enumerable ? 1 : 0) + (d.configurable ? 1 : 0) + "\t" + (acc ? (typeof d.get === "function" ? "g" : "-") + (typeof d.set === "function" ? "s" : "-") : (typeof d.value === "function" ? d.value.length : "")));
         var child = path === "this" ? n : path + "." + n;
         if (!acc) visit(d.value, child);
         else { visit(d.get, child + "<get>"); visit(d.set, child + "<set>"); }
@@ -603,6 +603,7 @@ func runCopyShape(r *engine.Run) {
 		{"hardened", `Object.freeze(Math); Object.seal(JSON); Object.preventExtensions(Array.prototype); Object.freeze(String.prototype); Object.seal(Object); Object.preventExtensions(Function.prototype); Object.preventExtensions(this); 0`},
 		{"hardened-functions", `Object.freeze(parseInt); Object.seal(Array.prototype.push); Object.preventExtensions(Error); Object.freeze(RegExp.prototype); Object.seal(Date.prototype); 0`},
 		{"edited", `delete Array.prototype.concat; Math.extra = 1; Object.defineProperty(String.prototype, "trim", {enumerable: true}); Object.defineProperty(JSON, "parse", {writable: false}); Number.prototype.toFixed = function(){ return "x" }; 0`},
+		{"accessors", `Object.defineProperty(Math, "max", {set: function(v){ this.__m = v }, configurable: true}); Object.defineProperty(Array.prototype, "only_set", {set: function(v){}, configurable: true}); Object.defineProperty(Array.prototype, "only_get", {get: function(){ return 1 }, enumerable: true, configurable: true}); Object.defineProperty(String.prototype, "both", {get: function(){ return 2 }, set: function(v){}, configurable: false}); Object.defineProperty(JSON, "neither", {get: undefined, set: undefined, configurable: true}); Object.defineProperty(this, "gacc", {set: function(v){}, configurable: true}); 0`},
 		{"vandal-1", strings.Replace(vandalSrc, "ROUNDS", "1", 1)},
 		{"vandal-2", strings.Replace(vandalSrc, "ROUNDS", "2", 1)},
 	}
